@@ -57,8 +57,23 @@ func runPermGroup(sc *gScen, k, natural int, tags []string, w *hx.Writer) {
 			hasAfterSub = true
 		}
 	}
+	// … or the early-reference callback of a post-processor fails for one member of a cycle: whether that member is ever
+	// asked for its early reference depends on where the cycle is entered (every failing start failed exactly there)
+	earlyFaultOnly := false
+	for _, n := range sc.nodes {
+		if n.flt&fltEarly != 0 {
+			earlyFaultOnly = true
+		}
+	}
+	for _, r := range runs {
+		if r.status != "ok" && !strings.Contains(r.errText, "injected fault: GetEarlyBeanReference") {
+			earlyFaultOnly = false
+		}
+	}
 	if okCount != 0 && okCount != len(runs) && len(ties) == 0 {
-		if hasAfterSub {
+		if earlyFaultOnly && !hasAfterSub {
+			add("c10-d6-early-callback-on-cycle", "start-up succeeds under %d of %d enumeration orders: the early-reference callback fails for a component on a cycle, and whether that component is asked for its early reference depends on where the cycle is entered", okCount, len(runs))
+		} else if hasAfterSub {
 			add("c10-d6-init-substitute-on-cycle", "start-up succeeds under %d of %d enumeration orders: a component on a cycle is substituted at initialisation and the stale-version check depends on where the cycle is entered", okCount, len(runs))
 		} else {
 			var sts []string
@@ -160,6 +175,14 @@ func gpermCorpus(w *hx.Writer) {
 		{ty: 1, cust: "xb", slots: map[string]string{"A0": "wxa"}},
 	}
 	runPermGroup(sc, 6, 0, []string{"corpus", "d6"}, w)
+	// the representative of known finding KF-C10-2: the same cycle, nothing substituted, the early-reference callback fails for xa
+	sc2 := &gScen{rankSeed: 11}
+	sc2.nodes = []gNode{
+		{ty: 13, cust: "a-holder", slots: map[string]string{"S0": "w"}},
+		{ty: 0, cust: "xa", flt: fltEarly, slots: map[string]string{"A0": "wxb"}},
+		{ty: 1, cust: "xb", slots: map[string]string{"A0": "wxa"}},
+	}
+	runPermGroup(sc2, 6, 0, []string{"corpus", "d6early"}, w)
 }
 
 func gpermGen(rng *hx.Rng, n int, tier string, w *hx.Writer) {
